@@ -8,9 +8,10 @@ use crate::{
     file_system::FileRange,
     index::IndexDatabase,
     symbol_map::{
-        record::{Record, RecordKind},
+        record::RecordKind,
         record_field::RecordField,
         symbol::Symbol,
+        template_arg::TemplateArgumentId,
         SymbolMap,
     },
 };
@@ -58,7 +59,19 @@ pub fn exec(db: &dyn IndexDatabase, range: FileRange) -> Option<Vec<InlayHint>> 
         match symbol {
             // TODO: 参照箇所のみをイテレートしたい
             Symbol::Record(record) if record.kind == RecordKind::Class => {
-                if let Some(new_hints) = inlay_hint_class(db, symbol_map, record, symbol_loc) {
+                let template_args = record.iter_template_arg().collect();
+                if let Some(new_hints) =
+                    inlay_hint_class(db, symbol_map, template_args, symbol_loc)
+                {
+                    hints.extend(new_hints);
+                }
+            }
+            // the arguments of a multiclass reference bind the parameters of the multiclass
+            Symbol::Multiclass(multiclass) => {
+                let template_args = multiclass.iter_template_arg().collect();
+                if let Some(new_hints) =
+                    inlay_hint_class(db, symbol_map, template_args, symbol_loc)
+                {
                     hints.extend(new_hints);
                 }
             }
@@ -78,7 +91,7 @@ pub fn exec(db: &dyn IndexDatabase, range: FileRange) -> Option<Vec<InlayHint>> 
 fn inlay_hint_class(
     db: &dyn IndexDatabase,
     symbol_map: &SymbolMap,
-    class: &Record,
+    template_args: Vec<TemplateArgumentId>,
     symbol_loc: FileRange,
 ) -> Option<Vec<InlayHint>> {
     let parse = db.parse(symbol_loc.file);
@@ -108,8 +121,8 @@ fn inlay_hint_class(
         .take_while(|it| matches!(it, ast::ArgValue::PositionalArgValue(_)))
         .map(|value| value.syntax().text_range());
 
-    let template_arg_names = class
-        .iter_template_arg()
+    let template_arg_names = template_args
+        .into_iter()
         .map(|arg_id| symbol_map.template_arg(arg_id))
         .map(|arg| arg.name.clone());
 
